@@ -52,6 +52,11 @@ func C04(c *fw.Ctx) {
 		label := j.ID[:strings.Index(j.ID, "/")]
 		c.Count(jobKey(j), res.Accepted)
 		c.Inc("streams", label, 1)
+		if res.Fatal != nil {
+			// the worker died or hung while building or while serialising/exporting: either way the accessor never returned
+			c.Violate("fatal:"+res.Fatal.Kind+":"+res.Fatal.Func, "the worker process died or hung during the job: "+firstLines(res.Fatal.Stderr, 5), replayOf(j, res))
+			return
+		}
 		if sig, _ := crashSig(res); sig != "" {
 			c.Inc("verdicts", "build-crash(judged by C01)", 1)
 			return
